@@ -2,6 +2,7 @@ package main
 
 import (
 	"fmt"
+	"strings"
 	"go/types"
 
 	"golang.org/x/tools/go/ssa"
@@ -373,7 +374,18 @@ func checkFailedStepIsFinal(c *Ctx, rule string, floor int, decodeLoops bool) {
 				if decodeLoops {
 					return in == site
 				}
-				return isRead(in)
+				// another read — or, in the frame readers of the filexfer package, a decoder: what a failed read left in
+				// the buffer is not a packet
+				if isRead(in) {
+					return true
+				}
+				if cc := callOf(in); cc != nil && outermost(fn).Package() != nil && outermost(fn).Package().Pkg.Path() == pkgSshfx {
+					if f := cc.StaticCallee(); f != nil && inModule(f) && strings.HasPrefix(f.Name(), "Unmarshal") {
+						_, isCall := in.(*ssa.Call)
+						return isCall
+					}
+				}
+				return false
 			}, nil,
 				func(a, b *ssa.BasicBlock, _ int) bool { return nilEdge[[2]*ssa.BasicBlock{a, b}] })
 			n++
